@@ -1,4 +1,12 @@
 import CCVerif.Model.Translation
+import CCVerif.Model.Dedup
+import CCVerif.Lemmas.Dedup
+import CCVerif.Model.Merge
+import CCVerif.Lemmas.Merge
+import CCVerif.Model.Equate
+import CCVerif.Lemmas.Equate
+import CCVerif.Model.Synth
+import CCVerif.Lemmas.Synth
 /-!
 # C12 — synthesis, merge and equation yield a consistent schema and exact translations
 
@@ -8,6 +16,17 @@ superposition = composition with fall-through, key/value swap of an equation). T
 clauses (every operand constituent represented, unique aliases, mentions rewritten, types
 preserved, refusal is identity) are judged on the implementation by the check's oracles and are
 kept below as statements over the abstract outcome of a synthesis.
+
+Second part (namespace `CCVerif.Dedup`): the first piece of the pipeline itself,
+`RSForm::DeleteDuplicatesInternal` (model `Model/Dedup.lean`, tied to the code by the harness line
+`c12 dups`): termination, validity of the returned translation, partition of the uids, no copies
+left, exactness of the rewritten definitions and texts, idempotence.
+
+Third part (namespace `CCVerif.Merge`): `rsOperationFacet::MergeWith` (model `Model/Merge.lean`,
+harness line `c12 mergeM`): every operand constituent is represented by a new constituent of the
+result, uids and aliases stay unique, the schema's own constituents are untouched; the copy's
+content is the operand's content renamed once — except for a constituent that mentions itself
+(`merge_exact_counterexample`, a defect of the code, recorded finding C12-merge-self-mention).
 -/
 namespace CCVerif.Translation
 
@@ -179,3 +198,774 @@ example : translations_total_valid
 example : superposeWith [(1, 5), (2, 6)] [(5, 9), (3, 3)] = [(1, 9), (2, 6), (5, 9), (3, 3)] := by decide
 
 end CCVerif.Translation
+
+/-! ## `RSForm::DeleteDuplicatesInternal` (model `CCVerif.Dedup.dedup`)
+
+`dedup l = some (r, tr)`: `r` is the content of the schema afterwards (in `List()` order), `tr`
+the returned translation. `image tr u` is `tr(u)` for a key and `u` otherwise; `finalAlias l r tr`
+is the renaming of mentions "alias of an original constituent ↦ alias of its image"
+(`finalAlias_spec`). -/
+namespace CCVerif.Dedup
+open CCVerif.Translation
+
+/-- the hypothesis of the theorems: pairwise distinct uids and pairwise distinct aliases -/
+def WF (l : Schema) : Prop := (uids l).Nodup ∧ (aliases l).Nodup
+
+/-- three identical terms `D1 D2 D3`, before them an axiom about the first and one about the last
+(identical only after the terms were merged: a cascade that needs a second pass), and two empty
+base sets (never merged) -/
+def exampleSchema : Schema :=
+  [ { uid := 10, alias := "X1", kind := 1, definition := [], rest := [[], [], []] },
+    { uid := 11, alias := "X2", kind := 1, definition := [], rest := [[], [], []] },
+    { uid := 21, alias := "A1", kind := 5, definition := [.mention "D1", .sym "=", .mention "D1"], rest := [[], [], []] },
+    { uid := 22, alias := "A2", kind := 5, definition := [.mention "D3", .sym "=", .mention "D3"], rest := [[], [], []] },
+    { uid := 31, alias := "D1", kind := 6, definition := [.mention "X1", .sym "\\", .mention "X1"], rest := [[], [], []] },
+    { uid := 32, alias := "D2", kind := 6, definition := [.mention "X1", .sym "\\", .mention "X1"], rest := [[], [], []] },
+    { uid := 33, alias := "D3", kind := 6, definition := [.mention "X1", .sym "\\", .mention "X1"], rest := [[], [], []] } ]
+
+/-- what the model computes on it: `D1` erases `D2`, then `D3` (visited next) erases `D1`; in the
+second pass `A1` (now `D3=D3`) erases `A2` -/
+def exampleResult : Schema × Tr :=
+  ( [ { uid := 10, alias := "X1", kind := 1, definition := [], rest := [[], [], []] },
+      { uid := 11, alias := "X2", kind := 1, definition := [], rest := [[], [], []] },
+      { uid := 21, alias := "A1", kind := 5, definition := [.mention "D3", .sym "=", .mention "D3"], rest := [[], [], []] },
+      { uid := 33, alias := "D3", kind := 6, definition := [.mention "X1", .sym "\\", .mention "X1"], rest := [[], [], []] } ],
+    [(32, 33), (31, 33), (22, 21)] )
+
+/-- non-vacuity of the two hypotheses shared by all theorems below (`WF l`, `dedup l = some (r, tr)`) -/
+example : WF exampleSchema ∧ dedup exampleSchema = some exampleResult :=
+  ⟨by unfold WF; decide, by decide⟩
+/-- the induced renaming on this instance: `D1`, `D2` become `D3`; `A2` becomes `A1`; a foreign name stays -/
+example : (["D1", "D2", "D3", "A2", "X1", "Q7"].map (finalAlias exampleSchema exampleResult.1 exampleResult.2)) =
+    ["D3", "D3", "D3", "A1", "X1", "Q7"] := by decide
+
+/-- **dedup_terminates**: the fuel of the model (`length + 1` passes, each over at most `length`
+constituents) is never exhausted — the `while (flag)` of the code terminates on every schema,
+because every pass that raises the flag has erased a constituent. -/
+theorem dedup_terminates (l : Schema) : ∃ r tr, dedup l = some (r, tr) := by
+  rcases loop_total (l.length + 1) l [] (Nat.lt_succ_self _) with ⟨⟨r, tr⟩, h⟩
+  exact ⟨r, tr, h⟩
+
+private theorem dedup_inv {l r : Schema} {tr : Tr} (hw : WF l) (h : dedup l = some (r, tr)) : Inv l r tr :=
+  loop_inv hw.1 _ _ _ _ _ (inv_init l hw.1 hw.2) h
+
+/-- **dedup_translation_valid** (a): every key of the returned translation is a uid that was in
+the schema and is not any more, every value is a uid that is still there (no dangling value; the
+defect repaired in 3ea486b and re-introduced by seeded change C12-1 breaks exactly this), and no
+uid is a key twice. -/
+theorem dedup_translation_valid {l r : Schema} {tr : Tr} (hw : WF l) (h : dedup l = some (r, tr)) :
+    (∀ p ∈ tr, p.1 ∈ uids l ∧ p.1 ∉ uids r ∧ p.2 ∈ uids r) ∧ (keys tr).Nodup := by
+  have hi := dedup_inv hw h
+  have hnd := hi.nodupAll hw.1
+  refine ⟨fun p hp => ⟨?_, ?_, hi.vals p hp⟩, (List.nodup_append.1 hnd).1⟩
+  · exact hi.part.mem_iff.1 (List.mem_append_left _ (List.mem_map.2 ⟨p, hp, rfl⟩))
+  · intro hr
+    exact (List.nodup_append.1 hnd).2.2 p.1 (List.mem_map.2 ⟨p, hp, rfl⟩) p.1 hr rfl
+
+example : ∃ l r tr, WF l ∧ dedup l = some (r, tr) ∧ tr ≠ [] :=
+  ⟨exampleSchema, exampleResult.1, exampleResult.2, by unfold WF; decide, by decide, by decide⟩
+
+/-- **dedup_pinned_counterexample**: the code before repair 3ea486b (`translation.Insert(copy,
+original)`, model `dedupPinned`) violates (a) on three identical terms: it returns
+`{2 ↦ 1, 1 ↦ 3}`, whose value `1` has been erased. Regression witness for the repaired defect. -/
+theorem dedup_pinned_counterexample :
+    ∃ l r tr, WF l ∧ dedupPinned l = some (r, tr) ∧ ∃ p ∈ tr, p.2 ∉ uids r :=
+  ⟨[ { uid := 1, alias := "D1", kind := 6, definition := [.mention "X1"], rest := [] },
+     { uid := 2, alias := "D2", kind := 6, definition := [.mention "X1"], rest := [] },
+     { uid := 3, alias := "D3", kind := 6, definition := [.mention "X1"], rest := [] } ],
+   [ { uid := 3, alias := "D3", kind := 6, definition := [.mention "X1"], rest := [] } ],
+   [(2, 1), (1, 3)], by unfold WF; decide, by decide, (2, 1), by decide, by decide⟩
+
+/-- **dedup_partition** (b): the keys of the translation together with the surviving uids are the
+original uids, each exactly once; the survivors keep their relative order. -/
+theorem dedup_partition {l r : Schema} {tr : Tr} (hw : WF l) (h : dedup l = some (r, tr)) :
+    (keys tr ++ uids r).Perm (uids l) ∧ (keys tr ++ uids r).Nodup ∧ (uids r).Sublist (uids l) := by
+  have hi := dedup_inv hw h
+  exact ⟨hi.part, hi.nodupAll hw.1, hi.order⟩
+
+/-- **dedup_represented**: every constituent the schema had is represented by an existing one:
+its image under the returned translation is the uid of a constituent of the result. -/
+theorem dedup_represented {l r : Schema} {tr : Tr} (hw : WF l) (h : dedup l = some (r, tr)) :
+    ∀ u ∈ uids l, image tr u ∈ uids r := by
+  have hvalid := dedup_translation_valid hw h
+  have hpart := dedup_partition hw h
+  intro w hwm
+  by_cases hkw : w ∈ keys tr
+  · rcases CCVerif.Equate.lookup_isSome_of_key hkw with ⟨v, hv⟩
+    have := (hvalid.1 _ (CCVerif.Equate.mem_of_lookup hv)).2.2
+    unfold image; rw [hv]; exact this
+  · rw [CCVerif.Equate.image_of_not_key hkw]
+    rcases List.mem_append.1 (hpart.1.mem_iff.2 hwm) with h1 | h1
+    · exact absurd h1 hkw
+    · exact h1
+
+/-- **dedup_no_duplicates** (c): afterwards no constituent that has any content (definition,
+convention or text) is identical to another one. (Constituents without any content — bare base
+sets — are never merged by the code: `!rsCst1.IsEmpty() || !textCst1.IsEmpty()`.) -/
+theorem dedup_no_duplicates {l r : Schema} {tr : Tr} (h : dedup l = some (r, tr)) :
+    ∀ a ∈ r, ∀ b ∈ r, a.uid ≠ b.uid → a.isEmpty = false →
+      ¬ (a.kind = b.kind ∧ a.definition = b.definition ∧ a.rest = b.rest) := by
+  intro a ha b hb hne hemp hsame
+  rcases loop_noCopies _ _ _ _ _ h a ha with he | hn
+  · rw [he] at hemp; cases hemp
+  · have := findCopy_none hn b hb (fun e => hne e.symm)
+    rw [(same_iff a b).2 hsame] at this
+    cases this
+
+example : ∃ l r tr, dedup l = some (r, tr) ∧ ∃ a ∈ r, a.isEmpty = false :=
+  ⟨exampleSchema, exampleResult.1, exampleResult.2, by decide, by decide⟩
+
+/-- **finalAlias_spec**: the renaming used in `dedup_exact`: a name that is no alias of the
+original schema is left alone; the alias of an original constituent becomes the alias of the
+constituent its uid is translated to. -/
+theorem finalAlias_spec {l r : Schema} {tr : Tr} (hw : WF l) (h : dedup l = some (r, tr)) :
+    (∀ a, a ∉ aliases l → finalAlias l r tr a = a) ∧
+    (∀ c0 ∈ l, ∀ s ∈ r, s.uid = image tr c0.uid → finalAlias l r tr c0.alias = s.alias) := by
+  have hi := dedup_inv hw h
+  constructor
+  · intro a ha
+    unfold finalAlias
+    have : l.find? (fun c0 => c0.alias == a) = none := by
+      apply List.find?_eq_none.2
+      intro x hx hxa
+      exact ha (List.mem_map.2 ⟨x, hx, by simpa using hxa⟩)
+    rw [this]
+  · intro c0 hc0 s hs hsu
+    unfold finalAlias
+    have h1 := find?_of_mem_nodup (·.alias) l c0 hw.2 hc0
+    rw [h1]
+    show (match List.find? (fun s => s.uid == image tr c0.uid) r with
+      | some s => s.alias
+      | none => c0.alias) = s.alias
+    rw [← hsu, find?_of_mem_nodup (·.uid) r s hi.nodupU hs]
+
+/-- **dedup_exact** (d, for every original constituent, removed or not): its image under the
+translation is in the result, has the same kind, and carries exactly the original definition
+(and convention / texts) with every mention renamed by `finalAlias`. For a removed constituent
+this says that the survivor it is translated to really is "the same concept". -/
+theorem dedup_exact {l r : Schema} {tr : Tr} (hw : WF l) (h : dedup l = some (r, tr)) :
+    ∀ c0 ∈ l, ∃ s ∈ r, s.uid = image tr c0.uid ∧ s.kind = c0.kind ∧
+      s.definition = c0.definition.map (renTok (finalAlias l r tr)) ∧
+      s.rest = c0.rest.map (·.map (renTok (finalAlias l r tr))) :=
+  (dedup_inv hw h).repr
+
+/-- **dedup_survivors** (d): every constituent of the result is an original one with the same
+uid, alias and kind whose definition (convention, texts) is the original one with each mention
+renamed to the alias of its image. -/
+theorem dedup_survivors {l r : Schema} {tr : Tr} (hw : WF l) (h : dedup l = some (r, tr)) :
+    ∀ s ∈ r, ∃ c0 ∈ l, c0.uid = s.uid ∧ c0.alias = s.alias ∧ c0.kind = s.kind ∧
+      s.definition = c0.definition.map (renTok (finalAlias l r tr)) ∧
+      s.rest = c0.rest.map (·.map (renTok (finalAlias l r tr))) := by
+  intro s hs
+  have hi := dedup_inv hw h
+  rcases hi.kept s hs with ⟨c0, hc0, hu, ha⟩
+  rcases hi.repr c0 hc0 with ⟨s2, hs2, hu2, hk2, hd2, hr2⟩
+  have hnk : c0.uid ∉ keys tr := by rw [hu]; exact hi.not_key hw.1 hs
+  have himg : image tr c0.uid = c0.uid := by
+    unfold image
+    have : containsKey tr c0.uid = false := by
+      cases hck : containsKey tr c0.uid with
+      | false => rfl
+      | true => exact absurd ((containsKey_iff_mem_keys tr c0.uid).1 hck) hnk
+    rw [lookup_eq_none_of_not_key tr c0.uid this]; rfl
+  have : s2 = s := eq_of_mem_nodup (·.uid) r s2 s hi.nodupU hs2 hs (by rw [hu2, himg, hu])
+  subst this
+  exact ⟨c0, hc0, hu, ha, hk2.symm, hd2, hr2⟩
+
+/-- **dedup_idempotent** (e): running it again on the result changes nothing and returns the
+empty translation. -/
+theorem dedup_idempotent {l r : Schema} {tr : Tr} (h : dedup l = some (r, tr)) :
+    dedup r = some (r, []) :=
+  loop_of_noCopies r.length r [] (loop_noCopies _ _ _ _ _ h)
+
+example : dedup exampleResult.1 = some (exampleResult.1, []) := by decide
+
+end CCVerif.Dedup
+
+/-! ## `rsOperationFacet::MergeWith` (model `CCVerif.Merge.mergeWith`)
+
+`mergeWith g freshs a b = some (r, tr)`: `a` the schema before, `b` the operand (`schema2`), `r`
+the schema afterwards, `tr` the returned translation (operand uid ↦ uid of the copy). `g` is the
+name rule, `freshs` the uids the random generator handed out; both are arbitrary (a run in which
+either would hand out something taken is `none`). -/
+namespace CCVerif.Merge
+open CCVerif.Translation CCVerif.Dedup
+
+/-- the final translation of the inserted constituents -/
+private def fin (st : MState) (s : Cst) : Cst :=
+  if st.inserted.contains s.uid then s.rename (ctxFn st.repl) else s
+
+private theorem fin_uid (st : MState) (s : Cst) : (fin st s).uid = s.uid := by unfold fin; split <;> rfl
+private theorem fin_alias (st : MState) (s : Cst) : (fin st s).alias = s.alias := by unfold fin; split <;> rfl
+private theorem fin_kind (st : MState) (s : Cst) : (fin st s).kind = s.kind := by unfold fin; split <;> rfl
+
+private theorem fin_nil (st : MState) (h : st.repl.isEmpty = true) (s : Cst) : fin st s = s := by
+  unfold fin
+  split
+  · have : st.repl = [] := by simpa using h
+    rw [this]; exact rename_id_eq s _ ctxFn_nil
+  · rfl
+
+private theorem merge_unfold {g : Names} {freshs : List Nat} {a b r : Schema} {tr : Tr}
+    (ha : WF a) (hb : WF b) (h : mergeWith g freshs a b = some (r, tr)) :
+    ∃ st, MInv a b st ∧ st.a.length = a.length + b.length ∧ r = st.a.map (fin st) ∧ tr = trOf b st := by
+  unfold mergeWith at h
+  split at h
+  · cases h
+  · rename_i st hst
+    have hi : MInv a b st := by
+      have := minv_fold b [] _ st (minv_init a freshs ha.1 ha.2) (by simpa using hb.1) (by simpa using hb.2) hst
+      simpa using this
+    simp only [Option.some.injEq, Prod.mk.injEq] at h
+    refine ⟨st, hi, merge_length hst, ?_, ?_⟩
+    · rw [← h.1]
+      split
+      · rename_i he
+        rw [List.map_congr_left (g := id) (fun s _ => fin_nil st he s)]; simp
+      · rfl
+    · rw [← h.2]
+      have hk : keys ((uids b).zip st.inserted) = uids b := keys_zip _ _ (by simpa [uids] using hi.len)
+      rw [foldl_insert_pairs _ [] (by show (keys ((uids b).zip st.inserted)).Nodup; rw [hk]; exact hb.1)]
+      rfl
+
+/-- a schema `X1, D1, D2` and an operand `X1, D1, D2, D3` whose `D1` has a convention that names
+`D1` itself and a definition text with a reference to its own term (the probe run on the code) -/
+def exampleA : Schema :=
+  [ { uid := 1, alias := "X1", kind := 1, definition := [], rest := [[], [], []] },
+    { uid := 2, alias := "D1", kind := 6, definition := [.mention "X1", .sym "\\", .mention "X1"], rest := [[], [], []] },
+    { uid := 3, alias := "D2", kind := 6, definition := [.mention "D1", .sym "\\", .mention "X1"], rest := [[], [], []] } ]
+def exampleB : Schema :=
+  [ { uid := 1, alias := "X1", kind := 1, definition := [], rest := [[], [], []] },
+    { uid := 12, alias := "D1", kind := 6, definition := [.mention "X1", .sym "\\", .mention "X1"],
+      rest := [[.mention "D1", .sym " is the first one"], [.sym "first"], [.sym "the @{", .mention "D1", .sym "|nomn,sing} itself"]] },
+    { uid := 13, alias := "D2", kind := 6, definition := [.mention "X1", .sym "\\", .mention "D1"], rest := [[], [], []] },
+    { uid := 14, alias := "D3", kind := 6, definition := [.mention "X1", .sym "\\", .mention "D2"], rest := [[], [], [.sym "third"]] } ]
+
+/-- the result with the self-mentions of the copy `D3` spelled `self` -/
+def exampleMergedWith (self : String) : Schema × Tr :=
+  ( [ { uid := 1, alias := "X1", kind := 1, definition := [], rest := [[], [], []] },
+      { uid := 77, alias := "X2", kind := 1, definition := [], rest := [[], [], []] },
+      { uid := 2, alias := "D1", kind := 6, definition := [.mention "X1", .sym "\\", .mention "X1"], rest := [[], [], []] },
+      { uid := 3, alias := "D2", kind := 6, definition := [.mention "D1", .sym "\\", .mention "X1"], rest := [[], [], []] },
+      { uid := 12, alias := "D3", kind := 6, definition := [.mention "X2", .sym "\\", .mention "X2"],
+        rest := [[.mention self, .sym " is the first one"], [.sym "first"], [.sym "the @{", .mention self, .sym "|nomn,sing} itself"]] },
+      { uid := 13, alias := "D4", kind := 6, definition := [.mention "X2", .sym "\\", .mention "D3"], rest := [[], [], []] },
+      { uid := 14, alias := "D5", kind := 6, definition := [.mention "X2", .sym "\\", .mention "D4"], rest := [[], [], [.sym "third"]] } ],
+    [(1, 77), (12, 12), (13, 13), (14, 14)] )
+
+/-- what the model (and the repaired code) give: the copy of the operand's `D1` is `D3` and speaks of itself as `D3` -/
+def exampleMerged : Schema × Tr := exampleMergedWith "D3"
+
+/-- non-vacuity of the hypotheses shared by the theorems below -/
+example : WF exampleA ∧ WF exampleB ∧ mergeWith realNames [77] exampleA exampleB = some exampleMerged :=
+  ⟨by unfold WF; decide, by unfold WF; decide, by decide⟩
+
+/-- **merge_represented**: every constituent of the operand is represented by an existing
+constituent of the result — the returned translation maps its uid to the uid of a constituent
+that is in the result, is new (not one of the schema's own), and has the same kind; the keys of
+the translation are exactly the operand's uids, in list order. -/
+theorem merge_represented {g : Names} {freshs : List Nat} {a b r : Schema} {tr : Tr}
+    (ha : WF a) (hb : WF b) (h : mergeWith g freshs a b = some (r, tr)) :
+    (∀ c2 ∈ b, ∃ s ∈ r, lookup tr c2.uid = some s.uid ∧ s.uid ∉ uids a ∧ s.kind = c2.kind) ∧
+    keys tr = uids b := by
+  rcases merge_unfold ha hb h with ⟨st, hi, _, rfl, rfl⟩
+  refine ⟨?_, keys_zip _ _ (by simpa [uids] using hi.len)⟩
+  intro c2 hc2
+  rcases hi.repr c2 hc2 with ⟨s, hs, hl, hin, hk, -⟩
+  refine ⟨fin st s, List.mem_map.2 ⟨s, hs, rfl⟩, ?_, ?_, ?_⟩
+  · rw [fin_uid]; exact hl
+  · rw [fin_uid]; exact hi.newU _ hin
+  · rw [fin_kind]; exact hk
+
+/-- **merge_consistent**: afterwards uids and aliases are still pairwise distinct, and every
+constituent the schema had is still there, unchanged. -/
+theorem merge_consistent {g : Names} {freshs : List Nat} {a b r : Schema} {tr : Tr}
+    (ha : WF a) (hb : WF b) (h : mergeWith g freshs a b = some (r, tr)) :
+    WF r ∧ (∀ s ∈ a, s ∈ r) ∧ r.length = a.length + b.length := by
+  rcases merge_unfold ha hb h with ⟨st, hi, hlen, rfl, rfl⟩
+  have hu : uids (st.a.map (fin st)) = uids st.a := by
+    simp only [uids, List.map_map]; apply List.map_congr_left; intro s _; exact fin_uid st s
+  have hal : aliases (st.a.map (fin st)) = aliases st.a := by
+    simp only [aliases, List.map_map]; apply List.map_congr_left; intro s _; exact fin_alias st s
+  refine ⟨⟨?_, ?_⟩, ?_, ?_⟩
+  · show (uids (st.a.map (fin st))).Nodup
+    rw [hu]; exact hi.nodupU
+  · show (aliases (st.a.map (fin st))).Nodup
+    rw [hal]; exact hi.nodupA
+  · intro s hs
+    refine List.mem_map.2 ⟨s, hi.frame s hs, ?_⟩
+    have : s.uid ∉ st.inserted := fun hin => hi.newU _ hin (List.mem_map.2 ⟨s, hs, rfl⟩)
+    simp [fin, this]
+  · rw [List.length_map]; exact hlen
+
+/-! ### exactness of the copied content -/
+
+/-- `m` is *the* renaming of a merge: the alias of an operand constituent goes to the alias of the
+constituent that represents it, every other name stays -/
+def IsMergeRenaming (b r : Schema) (tr : Tr) (m : String → String) : Prop :=
+  (∀ c2 ∈ b, ∀ s ∈ r, lookup tr c2.uid = some s.uid → m c2.alias = s.alias) ∧
+  (∀ x, x ∉ aliases b → m x = x)
+
+/-- **merge_exact**: the clause of the property "every mention of a renamed constituent is
+rewritten to its image" for `MergeWith`: the representative of an operand constituent carries the
+operand's definition, convention and texts with every mention renamed ONCE by the renaming of the
+merge — self-mentions, conventions and text references included. -/
+theorem merge_exact {g : Names} {freshs : List Nat} {a b r : Schema} {tr : Tr} {m : String → String}
+    (ha : WF a) (hb : WF b) (h : mergeWith g freshs a b = some (r, tr)) (hm : IsMergeRenaming b r tr m) :
+    ∀ c2 ∈ b, ∀ s ∈ r, lookup tr c2.uid = some s.uid →
+      s.definition = c2.definition.map (renTok m) ∧ s.rest = c2.rest.map (·.map (renTok m)) := by
+  rcases merge_unfold ha hb h with ⟨st, hi, _, rfl, rfl⟩
+  intro c2 hc2 s' hs' hl
+  rcases List.mem_map.1 hs' with ⟨s, hs, rfl⟩
+  rcases hi.repr c2 hc2 with ⟨s0, hs0, hl0, hin0, _, _, hd0, hr0⟩
+  have hsu : s.uid = s0.uid := by
+    have := hl.symm.trans hl0
+    rw [fin_uid] at this
+    exact Option.some.inj this
+  have : s = s0 := eq_of_mem_nodup (·.uid) st.a s s0 hi.nodupU hs hs0 hsu
+  subst this
+  have hfin : fin st s = s.rename (ctxFn st.repl) := by simp [fin, hin0]
+  have hagree : ∀ x, ctxFn st.repl x = m x := by
+    intro x
+    by_cases hx : x ∈ aliases b
+    · rcases List.mem_map.1 hx with ⟨c, hc, rfl⟩
+      rcases hi.repr c hc with ⟨sc, hsc, hlc, _, _, hctxc, -⟩
+      have := hm.1 c hc (fin st sc) (List.mem_map.2 ⟨sc, hsc, rfl⟩) (by rw [fin_uid]; exact hlc)
+      rw [hctxc, this, fin_alias]
+    · rw [hm.2 x hx, ctxFn_not_key]
+      exact fun hk => hx (hi.keysRepl _ hk)
+  rw [hfin, rename_definition, rename_rest, hd0, hr0]
+  constructor
+  · exact List.map_congr_left (fun t _ => renTok_congr hagree t)
+  · apply List.map_congr_left
+    intro ts _
+    exact List.map_congr_left (fun t _ => renTok_congr hagree t)
+
+/-- the renaming of the merge on the example: operand aliases `X1 D1 D2 D3` ↦ `X2 D3 D4 D5` -/
+def exampleRenaming (x : String) : String :=
+  if x = "X1" then "X2" else if x = "D1" then "D3" else if x = "D2" then "D4" else if x = "D3" then "D5" else x
+
+private theorem exampleRenaming_stays : ∀ x, x ∉ aliases exampleB → exampleRenaming x = x := by
+  intro x hx
+  have h1 : x ≠ "X1" := fun e => hx (by subst e; decide)
+  have h2 : x ≠ "D1" := fun e => hx (by subst e; decide)
+  have h3 : x ≠ "D2" := fun e => hx (by subst e; decide)
+  have h4 : x ≠ "D3" := fun e => hx (by subst e; decide)
+  simp [exampleRenaming, h1, h2, h3, h4]
+
+private theorem exampleRenaming_is (self : String) (h : self = "D3" ∨ self = "D5") :
+    IsMergeRenaming exampleB (exampleMergedWith self).1 (exampleMergedWith self).2 exampleRenaming := by
+  refine ⟨?_, exampleRenaming_stays⟩
+  rcases h with rfl | rfl <;> decide
+
+/-- non-vacuity of `merge_exact`: a renaming of the merge exists on the example, and the operand's
+`D1` (which mentions itself) is represented -/
+example : IsMergeRenaming exampleB exampleMerged.1 exampleMerged.2 exampleRenaming ∧
+    ∃ c2 ∈ exampleB, ∃ s ∈ exampleMerged.1, lookup exampleMerged.2 c2.uid = some s.uid ∧
+      Tok.mention c2.alias ∈ c2.rest.flatten :=
+  ⟨exampleRenaming_is "D3" (Or.inl rfl), exampleB[1], by decide, exampleMerged.1[4], by decide, by decide, by decide⟩
+
+/-- **merge_pinned_counterexample**: the code before repair d6a760d (model `mergeWithPinned`:
+`RSCore::InsertCopy(target, source)` renames the copy's own alias `D1 ↦ D3` inside its content,
+then `MergeWith` applied `{D1↦D3, D2↦D4, D3↦D5}` to the same content) violates the clause: the
+copy `D3` of the operand's `D1` ends with "D5 is the first one" / "@{D5|…}" — it names the copy of
+the operand's `D3` instead of itself. Regression witness (probe on the unrepaired library: same texts). -/
+theorem merge_pinned_counterexample :
+    ∃ (a b r : Schema) (tr : Tr) (m : String → String), WF a ∧ WF b ∧
+      mergeWithPinned realNames [77] a b = some (r, tr) ∧ IsMergeRenaming b r tr m ∧
+      ∃ c2 ∈ b, ∃ s ∈ r, lookup tr c2.uid = some s.uid ∧ s.rest ≠ c2.rest.map (·.map (renTok m)) :=
+  ⟨exampleA, exampleB, (exampleMergedWith "D5").1, (exampleMergedWith "D5").2, exampleRenaming,
+    by unfold WF; decide, by unfold WF; decide, by decide, exampleRenaming_is "D5" (Or.inr rfl),
+    exampleB[1], by decide, (exampleMergedWith "D5").1[4], by decide, by decide, by decide⟩
+
+end CCVerif.Merge
+
+/-! ## `RSEquationProcessor::Execute` (model `CCVerif.Equate.equate`)
+
+`equate semOk l eqs = some (r, tr)`: the table `eqs` was admissible for the schema `l` (structural
+check `precheck` of the model and the semantic verdict `semOk`), `r` is the schema afterwards, `tr`
+the translation `Ops().Equate` returns; `none` = refused. Keys of a table are distinct (a map):
+hypothesis `(tkeys eqs).Nodup`. -/
+namespace CCVerif.Equate
+open CCVerif.Translation CCVerif.Dedup CCVerif.Merge
+
+private theorem image_superpose (t s : Tr) (u : Nat) : image (superposeWith t s) u = image s (image t u) := by
+  unfold image
+  rw [superposeWith_apply]
+  cases lookup t u <;> simp
+
+private theorem equate_unfold {semOk : Bool} {l r : Schema} {eqs : List Entry} {tr : Tr}
+    (h : equate semOk l eqs = some (r, tr)) :
+    precheck l eqs = true ∧ semOk = true ∧
+      ∃ trD, dedup (beforeDedup l eqs) = some (r, trD) ∧ tr = superposeWith (eqTr eqs) trD := by
+  unfold equate at h
+  split at h
+  · cases h
+  · rename_i hc
+    simp only [Bool.not_eq_true, Bool.not_eq_false', Bool.and_eq_true] at hc
+    split at h
+    · cases h
+    · rename_i r' trD hd
+      simp only [Option.some.injEq, Prod.mk.injEq] at h
+      exact ⟨hc.1, hc.2, trD, by rw [← h.1]; exact hd, h.2.symm⟩
+
+private theorem wf_beforeDedup {l : Schema} (hw : WF l) (eqs : List Entry) : WF (beforeDedup l eqs) := by
+  constructor
+  · rw [uids_beforeDedup]; exact List.Nodup.sublist List.filter_sublist hw.1
+  · exact List.Nodup.sublist (aliases_beforeDedup_sublist l eqs) hw.2
+
+/-- a schema with two identical terms and an axiom about each; the table equates `D2` with `D1`
+(keeping the texts of the deleted one) -/
+def exampleSchema : Schema :=
+  [ { uid := 1, alias := "X1", kind := 1, definition := [], rest := [[], [], []] },
+    { uid := 2, alias := "D1", kind := 6, definition := [.mention "X1", .sym "∪", .mention "X1"], rest := [[], [.sym "one"], []] },
+    { uid := 3, alias := "D2", kind := 6, definition := [.mention "X1", .sym "∪", .mention "X1"], rest := [[], [.sym "two"], [.sym "see @{", .mention "D2", .sym "|nomn,sing}"]] },
+    { uid := 4, alias := "A1", kind := 5, definition := [.mention "D1", .sym "=", .mention "D1"], rest := [[], [], []] },
+    { uid := 5, alias := "A2", kind := 5, definition := [.mention "D2", .sym "=", .mention "D2"], rest := [[], [], []] } ]
+def exampleTable : List Entry := [{ key := 3, value := 2, mode := 2 }]
+
+/-- `D2` is removed, `D1` takes its texts (renamed), and the axioms — identical now — are merged -/
+def exampleEquated : Schema × Tr :=
+  ( [ { uid := 1, alias := "X1", kind := 1, definition := [], rest := [[], [], []] },
+      { uid := 2, alias := "D1", kind := 6, definition := [.mention "X1", .sym "∪", .mention "X1"], rest := [[], [.sym "two"], [.sym "see @{", .mention "D1", .sym "|nomn,sing}"]] },
+      { uid := 4, alias := "A1", kind := 5, definition := [.mention "D1", .sym "=", .mention "D1"], rest := [[], [], []] } ],
+    [(3, 2), (5, 4)] )
+
+/-- non-vacuity of the hypotheses shared by the theorems below -/
+example : WF exampleSchema ∧ (tkeys exampleTable).Nodup ∧ precheck exampleSchema exampleTable = true ∧
+    equate true exampleSchema exampleTable = some exampleEquated :=
+  ⟨by unfold WF; decide, by decide, by decide, by decide⟩
+
+/-- **equate_accepts / refuses**: the model executes exactly the tables that pass both parts of
+the admissibility check; a refused table yields nothing (the schema is not touched). -/
+theorem equate_accepts_iff (semOk : Bool) (l : Schema) (eqs : List Entry) :
+    (∃ r tr, equate semOk l eqs = some (r, tr)) ↔ (precheck l eqs = true ∧ semOk = true) := by
+  constructor
+  · rintro ⟨r, tr, h⟩
+    have := equate_unfold h
+    exact ⟨this.1, this.2.1⟩
+  · rintro ⟨h1, h2⟩
+    rcases dedup_terminates (beforeDedup l eqs) with ⟨r, trD, hd⟩
+    refine ⟨r, superposeWith (eqTr eqs) trD, ?_⟩
+    unfold equate
+    simp [h1, h2, hd]
+
+/-- **equate_refused_structurally**: an empty table, a key that is its own value, a key or value
+that is not in the schema, a value that is also a key: refused whatever the analysis says. -/
+theorem equate_refused_structurally (semOk : Bool) (l : Schema) (eqs : List Entry)
+    (h : eqs = [] ∨ ∃ e ∈ eqs, e.key = e.value ∨ e.key ∉ uids l ∨ e.value ∉ uids l ∨ e.value ∈ tkeys eqs) :
+    equate semOk l eqs = none := by
+  cases he : equate semOk l eqs with
+  | none => rfl
+  | some p =>
+    exfalso
+    have hp := (equate_unfold (r := p.1) (tr := p.2) he).1
+    rcases h with rfl | ⟨e, hem, hbad⟩
+    · simp [precheck] at hp
+    · have := precheck_entry hp hem
+      rcases hbad with h1 | h1 | h1 | h1
+      · exact this.2.2.1 h1
+      · exact h1 this.1
+      · exact h1 this.2.1
+      · exact this.2.2.2 h1
+
+example : equate true exampleSchema [{ key := 2, value := 2 }] = none := by decide
+
+/-- **equate_represented**: after an accepted equation every constituent the schema had is
+represented by an existing constituent (`image tr u` is the uid of a constituent of the result);
+the key of every equation is gone and key and value are represented by ONE survivor; every entry
+of the returned translation maps a removed uid to a surviving one. -/
+theorem equate_represented {semOk : Bool} {l r : Schema} {eqs : List Entry} {tr : Tr}
+    (hw : WF l) (hk : (tkeys eqs).Nodup) (h : equate semOk l eqs = some (r, tr)) :
+    (∀ u ∈ uids l, image tr u ∈ uids r) ∧
+    (∀ e ∈ eqs, e.key ∉ uids r ∧ image tr e.key = image tr e.value) ∧
+    (∀ p ∈ tr, p.1 ∈ uids l ∧ p.1 ∉ uids r ∧ p.2 ∈ uids r) := by
+  rcases equate_unfold h with ⟨hpre, _, trD, hd, rfl⟩
+  have hw3 := wf_beforeDedup hw eqs
+  have hvalid := dedup_translation_valid hw3 hd
+  have hpart := dedup_partition hw3 hd
+  -- the image under the duplicates' translation of anything that entered the removal survives
+  have himgD : ∀ w ∈ uids (beforeDedup l eqs), image trD w ∈ uids r := by
+    intro w hwm
+    by_cases hkw : w ∈ keys trD
+    · rcases lookup_isSome_of_key hkw with ⟨v, hv⟩
+      have := (hvalid.1 _ (mem_of_lookup hv)).2.2
+      unfold image; rw [hv]; exact this
+    · rw [image_of_not_key hkw]
+      have := hpart.1.mem_iff.2 hwm
+      rcases List.mem_append.1 this with h1 | h1
+      · exact absurd h1 hkw
+      · exact h1
+  have hmem3 : ∀ w, w ∈ uids (beforeDedup l eqs) ↔ (w ∈ uids l ∧ w ∉ tkeys eqs) := by
+    intro w; rw [uids_beforeDedup, List.mem_filter]; simp
+  have hsub : ∀ w ∈ uids r, w ∈ uids (beforeDedup l eqs) := fun w hwr => hpart.2.2.subset hwr
+  have himgE : ∀ e ∈ eqs, image (eqTr eqs) e.key = e.value := by
+    intro e he; unfold image; rw [lookup_eqTr hk he]; rfl
+  have hval3 : ∀ e ∈ eqs, e.value ∈ uids (beforeDedup l eqs) := by
+    intro e he
+    have := precheck_entry hpre he
+    exact (hmem3 _).2 ⟨this.2.1, this.2.2.2⟩
+  refine ⟨?_, ?_, ?_⟩
+  · intro u hu
+    rw [image_superpose]
+    by_cases huk : u ∈ tkeys eqs
+    · rcases List.mem_map.1 huk with ⟨e, he, rfl⟩
+      rw [himgE e he]; exact himgD _ (hval3 e he)
+    · rw [image_of_not_key (t := eqTr eqs) (by rw [keys_eqTr eqs hk]; exact huk)]
+      exact himgD _ ((hmem3 u).2 ⟨hu, huk⟩)
+  · intro e he
+    constructor
+    · intro hr
+      exact ((hmem3 _).1 (hsub _ hr)).2 (List.mem_map.2 ⟨e, he, rfl⟩)
+    · rw [image_superpose, image_superpose, himgE e he,
+        image_of_not_key (t := eqTr eqs) (by rw [keys_eqTr eqs hk]; exact (precheck_entry hpre he).2.2.2)]
+  · intro p hp
+    rcases mem_superposeWith hp with ⟨q, hq, rfl⟩ | hp
+    · rcases mem_eqTr hk hq with ⟨e, he, rfl⟩
+      have hpe := precheck_entry hpre he
+      refine ⟨hpe.1, ?_, himgD _ (hval3 e he)⟩
+      intro hr
+      exact ((hmem3 _).1 (hsub _ hr)).2 (List.mem_map.2 ⟨e, he, rfl⟩)
+    · have := hvalid.1 p hp
+      exact ⟨((hmem3 _).1 this.1).1, this.2.1, this.2.2⟩
+
+/-- **equate_consistent**: uids and aliases of the result are pairwise distinct; every constituent
+of the result is one the schema had, with the same uid, alias and kind, in the same relative order;
+its definition is the original one with every mention renamed — first by the substitution of the
+table (alias of a key ↦ alias of its value), then by the renaming the duplicate removal induces. -/
+theorem equate_consistent {semOk : Bool} {l r : Schema} {eqs : List Entry} {tr : Tr}
+    (hw : WF l) (h : equate semOk l eqs = some (r, tr)) :
+    WF r ∧ (uids r).Sublist (uids l) ∧
+    ∃ trD, ∀ s ∈ r, ∃ c0 ∈ l, c0.uid = s.uid ∧ c0.alias = s.alias ∧ c0.kind = s.kind ∧
+      s.definition = c0.definition.map
+        (renTok (fun x => finalAlias (beforeDedup l eqs) r trD (ctxFn (nameSubst l eqs) x))) := by
+  rcases equate_unfold h with ⟨_, _, trD, hd, rfl⟩
+  have hw3 := wf_beforeDedup hw eqs
+  have hpart := dedup_partition hw3 hd
+  have hsurv := dedup_survivors hw3 hd
+  have hsubl : (uids r).Sublist (uids l) := by
+    refine hpart.2.2.trans ?_
+    rw [uids_beforeDedup]; exact List.filter_sublist
+  refine ⟨⟨List.Nodup.sublist hsubl hw.1, ?_⟩, hsubl, trD, ?_⟩
+  · -- aliases: every survivor keeps the alias of the constituent of `beforeDedup` with its uid
+    have hnd := (List.nodup_append.1 hpart.2.1).2.1
+    have : aliases r = (r.map fun s => s.alias) := rfl
+    rw [this, List.Nodup, List.pairwise_map]
+    have hU : List.Pairwise (fun a b => a.uid ≠ b.uid) r := by
+      have := hnd; unfold uids at this; rwa [List.Nodup, List.pairwise_map] at this
+    refine hU.imp_of_mem ?_
+    intro a b ha hb hne hal
+    rcases hsurv a ha with ⟨ca, hca, hua, haa, -⟩
+    rcases hsurv b hb with ⟨cb, hcb, hub, hab, -⟩
+    have : ca = cb := eq_of_mem_nodup (·.alias) _ ca cb hw3.2 hca hcb (by show ca.alias = cb.alias; rw [haa, hab, hal])
+    exact hne (by rw [← hua, ← hub, this])
+  · intro s hs
+    rcases hsurv s hs with ⟨c3, hc3, hu3, ha3, hk3, hd3, -⟩
+    rcases (mem_beforeDedup hc3).2 with ⟨c0, hc0, hu0, ha0, hk0, hd0⟩
+    refine ⟨c0, hc0, hu0.trans hu3, ha0.trans ha3, hk0.trans hk3, ?_⟩
+    rw [hd3, hd0, List.map_map]
+    apply List.map_congr_left
+    intro t _
+    simp only [Function.comp]
+    rw [renTok_comp]; rfl
+
+end CCVerif.Equate
+
+/-! ## `BinarySynthes` (model `CCVerif.Synth.synth`)
+
+`synth g freshs semOk op1 op2 eqs = .ok r tr1 tr2`: the synthesis of the operands `op1`, `op2` with
+the table `eqs` (keys in `op1`, values in `op2`) was defined and gave the schema `r` and the
+translations `tr1`, `tr2`. -/
+namespace CCVerif.Synth
+open CCVerif.Translation CCVerif.Dedup CCVerif.Merge CCVerif.Equate
+
+private theorem lookup_subst_identity (us : List Nat) (s : Tr) (u : Nat) (hu : u ∈ us) :
+    lookup (substituteValues (identity us) s) u = some (image s u) := by
+  rw [substituteValues_apply, identity_apply]
+  simp [hu, image]
+
+private theorem lookup_subst_of (t s : Tr) (u w : Nat) (h : lookup t u = some w) :
+    lookup (substituteValues t s) u = some (image s w) := by
+  rw [substituteValues_apply, h]; rfl
+
+private theorem synth_finish {g : Names} {op1 op2 m e r : Schema} {trM trE tr1 tr2 : Tr} {eqs : List Entry}
+    (hw1 : WF op1) (hw2 : WF op2) (hmerge : ∃ freshs, mergeWith g freshs op1 op2 = some (m, trM))
+    (hwe : WF e) (himg : ∀ u ∈ uids m, image trE u ∈ uids e)
+    (hpairs : ∀ e0 ∈ eqs, image trE e0.key = image trE (image trM e0.value))
+    (hkeys : ∀ e0 ∈ eqs, e0.key ∈ uids op1) (hvals : ∀ e0 ∈ eqs, e0.value ∈ uids op2)
+    (hr : resetAliases g e = some r)
+    (h1 : tr1 = substituteValues (identity (uids op1)) trE) (h2 : tr2 = substituteValues trM trE) :
+    translations_total_valid
+      { op1 := uids op1, op2 := uids op2, result := uids r, tr1 := tr1, tr2 := tr2,
+        eqs := eqs.map fun e => (e.key, e.value) } ∧ WF r := by
+  rcases hmerge with ⟨freshs, hm⟩
+  have hcons := merge_consistent hw1 hw2 hm
+  have hrep := merge_represented hw1 hw2 hm
+  have hur := uids_resetAliases hr
+  have hop2 : ∀ u ∈ uids op2, ∃ w ∈ uids m, lookup trM u = some w := by
+    intro u hu
+    rcases List.mem_map.1 hu with ⟨c2, hc2, rfl⟩
+    rcases hrep.1 c2 hc2 with ⟨s, hs, hl, -⟩
+    exact ⟨s.uid, List.mem_map.2 ⟨s, hs, rfl⟩, hl⟩
+  subst h1 h2
+  refine ⟨⟨?_, ?_, ?_⟩, ⟨?_, aliases_resetAliases_nodup hwe.2 hr⟩⟩
+  · intro u hu
+    refine ⟨image trE u, ?_, lookup_subst_identity _ _ _ hu⟩
+    show image trE u ∈ uids r
+    rw [hur]
+    rcases List.mem_map.1 hu with ⟨c, hc, rfl⟩
+    exact himg _ (List.mem_map.2 ⟨c, hcons.2.1 c hc, rfl⟩)
+  · intro u hu
+    rcases hop2 u hu with ⟨w, hw, hl⟩
+    refine ⟨image trE w, ?_, lookup_subst_of _ _ _ _ hl⟩
+    show image trE w ∈ uids r
+    rw [hur]; exact himg w hw
+  · intro p hp
+    rcases List.mem_map.1 hp with ⟨e0, he0, rfl⟩
+    show lookup (substituteValues (identity (uids op1)) trE) e0.key = lookup (substituteValues trM trE) e0.value
+    rcases hop2 _ (hvals e0 he0) with ⟨w, _, hl⟩
+    have himv : image trM e0.value = w := by unfold image; rw [hl]; rfl
+    rw [lookup_subst_of _ _ _ _ hl, lookup_subst_identity _ _ _ (hkeys e0 he0), hpairs e0 he0, himv]
+  · show (uids r).Nodup
+    rw [hur]; exact hwe.1
+
+/-- two operands over one base set: `D1 := X1∪X1` in each, an axiom in the second; the table
+equates the base sets and the two terms -/
+def exampleOp1 : Schema :=
+  [ { uid := 1, alias := "X1", kind := 1, definition := [], rest := [[], [], []] },
+    { uid := 2, alias := "D1", kind := 6, definition := [.mention "X1", .sym "∪", .mention "X1"], rest := [[], [.sym "union"], []] } ]
+def exampleOp2 : Schema :=
+  [ { uid := 11, alias := "X1", kind := 1, definition := [], rest := [[], [], []] },
+    { uid := 12, alias := "D1", kind := 6, definition := [.mention "X1", .sym "∪", .mention "X1"], rest := [[], [], []] },
+    { uid := 13, alias := "A1", kind := 5, definition := [.mention "D1", .sym "=", .mention "D1"], rest := [[], [], []] } ]
+def exampleEqs : List Entry := [{ key := 1, value := 11 }, { key := 2, value := 12 }]
+
+/-- the result keeps the second operand's side of each pair (renamed back to `X1`, `D1` by `ResetAliases`) -/
+def exampleSynth : Res :=
+  .ok [ { uid := 11, alias := "X1", kind := 1, definition := [], rest := [[], [], []] },
+        { uid := 12, alias := "D1", kind := 6, definition := [.mention "X1", .sym "∪", .mention "X1"], rest := [[], [], []] },
+        { uid := 13, alias := "A1", kind := 5, definition := [.mention "D1", .sym "=", .mention "D1"], rest := [[], [], []] } ]
+      [(1, 11), (2, 12)] [(11, 11), (12, 12), (13, 13)]
+
+/-- non-vacuity of the hypotheses of `synth_total_valid` -/
+example : WF exampleOp1 ∧ WF exampleOp2 ∧ (tkeys exampleEqs).Nodup ∧
+    synth realNames [] true exampleOp1 exampleOp2 exampleEqs = exampleSynth :=
+  ⟨by unfold WF; decide, by unfold WF; decide, by decide, by decide⟩
+
+/-- **synth_total_valid**: the end-to-end clauses of the property for a synthesis that was defined
+and executed, for all operands with pairwise distinct uids and aliases and every table (keys
+distinct, as in a map): every constituent of either operand is represented by an existing
+constituent of the result (`tr1`, `tr2` are total on the operands and their values are uids of
+the result), the two sides of every equation are represented by ONE constituent, and the uids and
+the aliases of the result are pairwise distinct. -/
+theorem synth_total_valid {g : Names} {freshs : List Nat} {semOk : Bool} {op1 op2 r : Schema}
+    {eqs : List Entry} {tr1 tr2 : Tr}
+    (hw1 : WF op1) (hw2 : WF op2) (hk : (tkeys eqs).Nodup)
+    (h : synth g freshs semOk op1 op2 eqs = .ok r tr1 tr2) :
+    translations_total_valid
+      { op1 := uids op1, op2 := uids op2, result := uids r, tr1 := tr1, tr2 := tr2,
+        eqs := eqs.map fun e => (e.key, e.value) } ∧ WF r := by
+  unfold synth at h
+  cases hm : mergeWith g freshs op1 op2 with
+  | none => rw [hm] at h; cases h
+  | some p =>
+    obtain ⟨m, trM⟩ := p
+    rw [hm] at h
+    simp only at h
+    have hcons := merge_consistent hw1 hw2 hm
+    by_cases hempty : eqs.isEmpty = true
+    · simp only [hempty, if_true] at h
+      have he : eqs = [] := by simpa using hempty
+      cases hd : dedup m with
+      | none => rw [hd] at h; cases h
+      | some q =>
+        obtain ⟨e, trE⟩ := q
+        rw [hd] at h
+        simp only at h
+        cases hr : resetAliases g e with
+        | none => rw [hr] at h; cases h
+        | some r' =>
+          rw [hr] at h
+          simp only [Res.ok.injEq] at h
+          obtain ⟨rfl, rfl, rfl⟩ := h
+          have hpart := dedup_partition hcons.1 hd
+          have hwe : WF e := by
+            constructor
+            · exact (List.nodup_append.1 hpart.2.1).2.1
+            · -- survivors keep their aliases
+              have hsurv := dedup_survivors hcons.1 hd
+              have hnd := (List.nodup_append.1 hpart.2.1).2.1
+              show (e.map fun s => s.alias).Nodup
+              rw [List.Nodup, List.pairwise_map]
+              have hU : List.Pairwise (fun a b => a.uid ≠ b.uid) e := by
+                have := hnd; unfold uids at this; rwa [List.Nodup, List.pairwise_map] at this
+              refine hU.imp_of_mem ?_
+              intro a b ha hb hne hal
+              rcases hsurv a ha with ⟨ca, hca, hua, haa, -⟩
+              rcases hsurv b hb with ⟨cb, hcb, hub, hab, -⟩
+              have : ca = cb := eq_of_mem_nodup (·.alias) _ ca cb hcons.1.2 hca hcb
+                (by show ca.alias = cb.alias; rw [haa, hab, hal])
+              exact hne (by rw [← hua, ← hub, this])
+          exact synth_finish hw1 hw2 ⟨freshs, hm⟩ hwe (dedup_represented hcons.1 hd)
+            (by intro e0 he0; rw [he] at he0; cases he0) (by intro e0 he0; rw [he] at he0; cases he0)
+            (by intro e0 he0; rw [he] at he0; cases he0) hr rfl rfl
+    · have hne : eqs.isEmpty = false := by simpa using hempty
+      simp only [hne, Bool.false_eq_true, if_false] at h
+      split at h
+      · cases h
+      · rename_i hall
+        have hall' : ∀ e0 ∈ eqs, e0.key ∈ uids op1 ∧ e0.value ∈ uids op2 := by
+          intro e0 he0
+          simp only [Bool.not_eq_true, Bool.not_eq_false', List.all_eq_true, Bool.and_eq_true] at hall
+          have := hall e0 he0
+          exact ⟨by simpa using this.1, by simpa using this.2⟩
+        cases hq : equate semOk m (translateEquations m trM eqs) with
+        | none => rw [hq] at h; cases h
+        | some q =>
+          obtain ⟨e, trE⟩ := q
+          rw [hq] at h
+          simp only at h
+          cases hr : resetAliases g e with
+          | none => rw [hr] at h; cases h
+          | some r' =>
+            rw [hr] at h
+            simp only [Res.ok.injEq] at h
+            obtain ⟨rfl, rfl, rfl⟩ := h
+            have hte := translateEquations_keeps m trM eqs hk
+            have hrepE := equate_represented hcons.1 hte.1 hq
+            have hconE := equate_consistent hcons.1 hq
+            refine synth_finish hw1 hw2 ⟨freshs, hm⟩ hconE.1 hrepE.1 ?_
+              (fun e0 he0 => (hall' e0 he0).1) (fun e0 he0 => (hall' e0 he0).2) hr rfl rfl
+            intro e0 he0
+            rcases hte.2 e0 he0 with ⟨e', he', ⟨hk', hv'⟩ | ⟨hk', hv'⟩⟩
+            · have := (hrepE.2.1 e' he').2
+              rw [hk', hv'] at this; exact this
+            · have := (hrepE.2.1 e' he').2
+              rw [hk', hv'] at this; exact this.symm
+
+/-- **synth_refused**: a table with a key outside operand 1 or a value outside operand 2 is never
+executed (`IsCorrectlyDefined()` is false, `Execute()` gives nothing; the operands are values and
+are not touched). -/
+theorem synth_refused {g : Names} {freshs : List Nat} {semOk : Bool} {op1 op2 : Schema} {eqs : List Entry}
+    (h : ∃ e ∈ eqs, e.key ∉ uids op1 ∨ e.value ∉ uids op2) :
+    ∀ r tr1 tr2, synth g freshs semOk op1 op2 eqs ≠ .ok r tr1 tr2 := by
+  intro r tr1 tr2 hs
+  rcases h with ⟨e, he, hbad⟩
+  unfold synth at hs
+  split at hs
+  · cases hs
+  · simp only at hs
+    have hne : eqs.isEmpty = false := by cases eqs with | nil => cases he | cons _ _ => rfl
+    simp only [hne, Bool.false_eq_true, if_false] at hs
+    split at hs
+    · cases hs
+    · rename_i hall
+      simp only [Bool.not_eq_true, Bool.not_eq_false', List.all_eq_true, Bool.and_eq_true] at hall
+      have := hall e he
+      rcases hbad with h1 | h1
+      · exact h1 (by simpa using this.1)
+      · exact h1 (by simpa using this.2)
+
+example : synth realNames [] true exampleOp1 exampleOp2 [{ key := 1, value := 2 }] = .refused := by decide
+
+end CCVerif.Synth
